@@ -235,7 +235,7 @@ def _reject(model: Model, Rj: RuleResult):
     ct = model.func(PACK, "Packer.construct_from_tensor")
     cfg2 = CFG(ct.node)
     dom2 = cfg2.dominators(skip_exc=True)
-    chk = [i for i in own_nodes(ct.node) if isinstance(i, ast.If) and i.body and isinstance(i.body[-1], ast.Raise) and "numel()" in ast.unparse(i.test) and "!=" in ast.unparse(i.test)]
+    chk = [i for i in own_nodes(ct.node) if isinstance(i, ast.If) and i.body and isinstance(i.body[-1], ast.Raise) and "numel(" in ast.unparse(i.test) and "!=" in ast.unparse(i.test)]
     uses = [n for n in cfg2.nodes if n.stmt is not None and n.kind in ("stmt", "return") and "construct_from_tensor_list(" in ast.unparse(n.stmt)]
     if chk and uses and all(dom2.get(u.id, set()) & {n.id for c in chk for n in cfg2.nodes_of(c)} for u in uses):
         Rj.ok(ct.fq, "element-count check dominates the split and reconstruction")
